@@ -439,32 +439,32 @@ type CallSiteSpec struct {
 }
 
 type Contract struct {
-	Func          string
-	Extern        bool // assumed contract on a dependency
-	Trusted       bool // in-repo function whose body is not verified (listed)
-	AssumeEnsures bool
+	Func           string
+	Extern         bool // assumed contract on a dependency
+	Trusted        bool // in-repo function whose body is not verified (listed)
+	AssumeEnsures  bool
 	AssumedClauses map[string]bool // "assumed <clause-name>...": these ensures clauses are definitions/assumptions, not proved
-	File          string
-	Requires      []Clause
-	Domain        []Clause // domain of the functional clauses: assumed only when proving them, never required of callers
-	Ensures       []Clause
-	Assigns       []string // raw place strings; nil = unspecified
-	HasAssign     bool
-	Pure          bool
-	PureReads     []string // parameter names whose slice contents a pure function reads
-	Fresh         bool
-	MayPanic      bool
-	OnceGuarded   bool // closure that only ever runs inside sync.Once.Do (inventory-checked)
-	NoReturn      bool
-	Decreases     *Clause
-	Loops         map[int]*LoopSpec
-	Calls         []*CallSiteSpec
-	ReturnGhost   []GhostUpdate // ghost field updates performed at every return
-	ReturnAsserts []Clause      // assertions over parameters, results and locals, checked at every return where they are in scope
-	Props         []string
-	Insts         map[string][]Clause // clause name -> instantiation hints ("var: term")
-	Params        []string            // optional explicit parameter names (externs)
-	Weak          bool                // nil/typeassert obligations of this function are claimed too when false..
+	File           string
+	Requires       []Clause
+	Domain         []Clause // domain of the functional clauses: assumed only when proving them, never required of callers
+	Ensures        []Clause
+	Assigns        []string // raw place strings; nil = unspecified
+	HasAssign      bool
+	Pure           bool
+	PureReads      []string // parameter names whose slice contents a pure function reads
+	Fresh          bool
+	MayPanic       bool
+	OnceGuarded    bool // closure that only ever runs inside sync.Once.Do (inventory-checked)
+	NoReturn       bool
+	Decreases      *Clause
+	Loops          map[int]*LoopSpec
+	Calls          []*CallSiteSpec
+	ReturnGhost    []GhostUpdate // ghost field updates performed at every return
+	ReturnAsserts  []Clause      // assertions over parameters, results and locals, checked at every return where they are in scope
+	Props          []string
+	Insts          map[string][]Clause // clause name -> instantiation hints ("var: term")
+	Params         []string            // optional explicit parameter names (externs)
+	Weak           bool                // nil/typeassert obligations of this function are claimed too when false..
 }
 
 type GhostField struct {
